@@ -27,6 +27,7 @@ def gen(t):
     tu = TU('c16_' + t, header=HDR)
     a = tu.add
     a('w_proj', '%s& o, const %s& f' % (M4, F), 'o = f.projectionMatrix();')
+    a('w_projExc', '%s& o, const %s& f' % (M4, F), 'o = f.projectionMatrixExc();')
     a('w_pp2s', '%s& o, const %s& f, const %s& p' % (V2, F, V3), 'o = f.projectPointToScreen(p);')
     a('w_l2s', '%s& o, const FP<%s>& f, const %s& p' % (V2, E, V2), 'o = f.localToScreen(p);')
     a('w_s2l', '%s& o, const FP<%s>& f, const %s& p' % (V2, E, V2), 'o = f.screenToLocal(p);')
@@ -159,6 +160,30 @@ def main(rep, ws, tier):
             return f
         ob('projectionMatrix[perspective]', 'R16.proj', proj('persp'))
         ob('projectionMatrix[orthographic]', 'R16.proj', proj('ortho'))
+        def proj_exc(kind):
+            """the throwing overload returns the same matrix wherever it returns (its overflow guards not firing)"""
+            def f():
+                S = S_('w_proj'); SE = R.get('w_projExc')
+                if SE is None: raise vg.Unsupported(R.err.get('w_projExc', 'not analysed'))
+                a_ = fix_ortho([S.out('a0', i * sz, sz, lt) for i in range(16)], 'a1', t, kind == 'ortho')
+                b_ = fix_ortho([SE.out('a0', i * sz, sz, lt) for i in range(16)], 'a1', t, kind == 'ortho')
+                def huge(z): return z.op == 'fmul' and any(w.op == 'const' and abs(T.const_value(w)) > 10 ** 30 for w in z.args)
+                for _ in range(12):
+                    pre = {}
+                    for c in set(c_ for x in b_ for c_ in P.all_conds(x)):
+                        if c.op == 'fcmp' and c.attr in ('olt', 'ole') and (huge(c.args[0]) or huge(c.args[1])): pre[c] = huge(c.args[1])      # |x| < max*|y| holds, max*|y| < |x| does not
+                        elif c.op == 'fcmp' and c.attr in ('olt', 'ole') and c.args[1].op == 'const' and T.const_value(c.args[1]) == 1 and P.abs_idiom(T.ite(c, T.TRUE, T.FALSE)) is None: pre[c] = False   # |divisor| < 1: the guarded regime
+                    if not pre: break
+                    b_ = [T.resolve(x, pre) for x in b_]
+                if any(x.op == 'throw' for x in b_): return ('%s: projectionMatrixExc throws on the regular path' % kind, None, fn_where(SE.fn))
+                ctx = P.Ctx()
+                for i in range(16):
+                    if not ctx.requal(ctx.rat(a_[i]), ctx.rat(b_[i])):
+                        return ('%s: projectionMatrixExc()[%d][%d] = %s, projectionMatrix() has %s' % (kind, i // 4, i % 4, P.show_rat(ctx.rat(b_[i]), ctx)[:100], P.show_rat(ctx.rat(a_[i]), ctx)[:100]), None, fn_where(SE.fn))
+                return (None, 'the same 16 entries as projectionMatrix() on the non-throwing path', fn_where(SE.fn))
+            return f
+        ob('projectionMatrixExc[perspective]', 'R16.proj', proj_exc('persp'))
+        ob('projectionMatrixExc[orthographic]', 'R16.proj', proj_exc('ortho'))
 
         def pp2s(kind):
             def f():
